@@ -9,7 +9,7 @@ for f in $(grep -o 'toy\.[A-Za-z.]*\(OK\|Bad\)#' <<<"$out" | sort -u | tr -d '#'
   if [[ $f == *OK ]]; then
     if grep -qv '^  discharged' <<<"$lines"; then echo "SELFTEST-FAIL $f has undischarged obligations"; fail=1; fi
   else
-    if ! grep -q '^  refuted' <<<"$lines"; then echo "SELFTEST-FAIL $f has no refuted obligation"; fail=1; fi
+    if ! grep -q '^  refuted\|^  undecided.*candidate model' <<<"$lines"; then echo "SELFTEST-FAIL $f has no refuted obligation"; fail=1; fi
   fi
 done
 n=$(grep -c '^  ' <<<"$out")
